@@ -385,7 +385,32 @@ pub fn history(ctx: &mut Ctx, start: &MPos, plies: usize) {
     crate::stream::poll_hooks(ctx, &case);
 }
 
+/// Boards obtained from arbitrary FEN text: whatever is accepted must be a valid position.
+fn fen_texts(ctx: &mut Ctx) {
+    let mut bases: Vec<String> = crate::gentext::FEN_VARIANTS.iter().map(|s| s.to_string()).collect();
+    bases.extend(crate::gen::FIXED_FENS.iter().map(|s| s.to_string()));
+    let n = ctx.budget(300_000, 4_000_000);
+    for i in 0..n {
+        if ctx.miri_full() {
+            break;
+        }
+        let base = ctx.rng.pick(&bases).clone();
+        let t = if i % 5 == 0 { base } else { crate::gentext::mutate(&mut ctx.rng, &base, crate::gentext::FEN_ALPHABET) };
+        let case = format!("fen:{}", crate::ctx::hex(t.as_bytes()));
+        ctx.eval(1);
+        if let Some(Ok(b)) = ctx.guard("from_fen_text", &case, || Board::from_fen(&t)) {
+            if i % 64 == 0 {
+                ctx.begin_case(&case);
+            }
+            ctx.feature("fen_text_accepted");
+            let _ = check_valid_result(ctx, &case, "from_fen_text", &b);
+            ctx.nontrivial(t.as_bytes());
+        }
+    }
+}
+
 pub fn run(ctx: &mut Ctx) {
+    fen_texts(ctx);
     let n = ctx.budget(150_000, 2_000_000);
     let mut src = Sources::standard(n);
     src.three_man = n / 20;
@@ -408,6 +433,15 @@ pub fn run(ctx: &mut Ctx) {
 }
 
 pub fn replay(ctx: &mut Ctx, case: &str) -> bool {
+    if let Some(h) = case.strip_prefix("fen:") {
+        let Some(bytes) = crate::ctx::unhex(h) else { return false };
+        let Ok(t) = String::from_utf8(bytes) else { return false };
+        ctx.begin_case(case);
+        if let Some(Ok(b)) = ctx.guard("from_fen_text", case, || Board::from_fen(&t)) {
+            let _ = check_valid_result(ctx, case, "from_fen_text", &b);
+        }
+        return true;
+    }
     if let Some(rest) = case.strip_prefix("hist:") {
         // histories depend on the PRNG stream; replay re-runs random histories from the same start
         let fen = rest.split('|').next().unwrap_or(rest);
